@@ -1,5 +1,5 @@
 SPECIFICATION Spec
-CONSTANTS NSubs = 2 Kinds <- KindsPS B = 2 BProgs <- BP2 CloseFix = TRUE
+CONSTANTS NSubs = 2 B = 2 Progs <- ProgsPS21 CloseFix = TRUE
 INVARIANT CommonOrder
 PROPERTIES QuietAfterClose CloseReturns BroadcastsReturn
 CHECK_DEADLOCK FALSE
